@@ -236,6 +236,9 @@ SibDesc(r, P, C) ==
 SupFams   == {"supd", "supe", "supr", "supp", "supm"}
 SupHows   == {"none", "sig", "ctor", "update", "pipe", "bctor", "bupdate"}
 SupHows2  == {"none", "ctor", "bctor"}
+(* every way for the parameter under test next to an untouched sibling; a default / bound value on the sibling next to *)
+(* one way of each kind for the parameter under test                                                                    *)
+SupCombos == {<<m1, "none">> : m1 \in SupHows} \cup ({"none", "ctor", "bctor"} \X (SupHows2 \ {"none"}))
 HowSup(how) == CASE how = "none" -> "none" [] how = "sig" -> "sig"
                  [] how \in {"ctor", "update", "pipe"} -> "default" [] how \in {"bctor", "bupdate"} -> "bound"
 SupVia(fam) == CASE fam = "supd" -> "direct" [] fam = "supe" -> "emap" [] fam = "supr" -> "reduce"
@@ -250,11 +253,11 @@ SupDesc(r, P, C) ==
       [] r.fam = "supp" -> [prods |-> <<PR(<<"y">>, <<P>>, MS(<<xij>>, <<yij>>))>>,  cons |-> [params |-> yk, ms |-> MS(<<Arr("y", <<"i", ":">>)>>, <<zi>>)]]
       [] r.fam = "supm" -> [prods |-> <<PR(<<"s", "d">>, <<P, IntT>>, NoMS)>>,
                             cons  |-> [params |-> <<SupParam("s", C, r.m1), SupParam("d", IntT, r.m2)>>, ms |-> NoMS]]
-SupTable == {r \in {[name |-> fam \o "_" \o m1 \o "_" \o m2, fam |-> fam, m1 |-> m1, m2 |-> m2] :
-                        fam \in SupFams, m1 \in SupHows, m2 \in SupHows2} : SupplyWellFormed(SupDesc(r, IntT, IntT).cons)}
+SupTable == {r \in {[name |-> fam \o "_" \o mm[1] \o "_" \o mm[2], fam |-> fam, m1 |-> mm[1], m2 |-> mm[2]] :
+                        fam \in SupFams, mm \in SupCombos} : SupplyWellFormed(SupDesc(r, IntT, IntT).cons)}
 SupShapes   == {r.name : r \in SupTable}
 SupRow(name) == CHOOSE r \in SupTable : r.name = name
-ASSUME Cardinality(SupTable) = 3 * 21 + 2 * 15 /\ Cardinality(SupShapes) = Cardinality(SupTable)
+ASSUME Cardinality(SupTable) = 3 * 13 + 2 * 9 /\ Cardinality(SupShapes) = Cardinality(SupTable)
 ASSUME SupShapes \cap (Shapes \cup NamedShapes \cup SibShapes \cup {"row"}) = {}
 (* the way a value is attached does not matter for the specification: only its kind does *)
 ASSUME \A r1, r2 \in SupTable : (r1.fam = r2.fam /\ HowSup(r1.m1) = HowSup(r2.m1) /\ HowSup(r1.m2) = HowSup(r2.m2)) =>
@@ -277,6 +280,10 @@ ASSUME PSet \subseteq Universe
 PSibQuick == {IntT, BoolT, FloatT, StrT, AnyT, NoAnn, ListOf(IntT), Opt(IntT), Ann(IntT), ArrayOf(IntT)}
 PSib == IF Tier = "quick" THEN PSibQuick ELSE PQuick
 ASSUME PSib \subseteq PSet
+(* annotations on the edge under test of the supply shapes *)
+PSupQuick == {IntT, BoolT, FloatT, StrT, AnyT, NoAnn, Opt(IntT), ArrayOf(IntT)}
+PSup == IF Tier = "quick" THEN PSupQuick ELSE PSibQuick
+ASSUME PSup \subseteq PSib
 
 WellFormedPipe(shape, P) ==                                                                           \* tuple[NoAnn, int] cannot be written
     (shape \in ({"multi2", "multi2x"} \cup RenameShapes) \/ (shape \in SibShapes /\ SibOf(shape).fam = "sib2")
@@ -292,7 +299,10 @@ PipeCases(p) == {[shape |-> s, p |-> p, c |-> Idx(C), validate |-> v] :
                     s \in {x \in Shapes \cup NamedShapes : WellFormedPipe(x, USeq[p])}, C \in PSet, v \in BOOLEAN}
                 \cup (IF USeq[p] \notin PSib THEN {}
                       ELSE {[shape |-> s, p |-> p, c |-> Idx(C), validate |-> v] :
-                               s \in {x \in SibShapes \cup SupShapes : WellFormedPipe(x, USeq[p])}, C \in PSib, v \in BOOLEAN})
+                               s \in {x \in SibShapes : WellFormedPipe(x, USeq[p])}, C \in PSib, v \in BOOLEAN})
+                \cup (IF USeq[p] \notin PSup THEN {}
+                      ELSE {[shape |-> s, p |-> p, c |-> Idx(C), validate |-> v] :
+                               s \in {x \in SupShapes : WellFormedPipe(x, USeq[p])}, C \in PSup, v \in BOOLEAN})
 
 ---------------------------------------------------------------------------
 PairOut(c) == LET A == USeq[c.i]  B == USeq[c.j]
